@@ -180,8 +180,17 @@ func runC18(c *Ctx) {
 	}
 
 	// R18.4 roots
-	basePool := p.Fn("rt/client.basePool")
-	for _, r := range returnsOf(basePool) {
+	basePool := p.FnOpt("rt/client.basePool")
+	if basePool == nil {
+		basePool = p.lenientFn("rt/client.basePool")
+	}
+	var bpReturns []*ssa.Return
+	if basePool != nil {
+		bpReturns = returnsOf(basePool)
+	} else {
+		c.info("R18.4: basePool no longer exists; RootCAs origins are checked directly")
+	}
+	for _, r := range bpReturns {
 		ok, bad := allOrigins(r.Results[0], oParam(basePool, 0), oCall(-1, "crypto/x509.NewCertPool"))
 		c.obI("R18.4", r, "basePool-result", ok, "basePool returns the supplied pool or a new empty pool", "origin "+describeOrigin(bad))
 	}
@@ -189,8 +198,9 @@ func runC18(c *Ctx) {
 	for _, st := range rootStores {
 		ok, bad := allOrigins(st.Val,
 			oFieldLoad(tlsOptsT, "LoadedCAPool", nil),
+			oCall(-1, "crypto/x509.NewCertPool"),
 			oCallWhere(-1, "rt/client.basePool", func(call *ssa.Call) bool { return optField("LoadedCAPool")(call.Call.Args[0]) }))
-		c.obI("R18.4", st, "RootCAs-origin", ok, "tls.Config.RootCAs originates only from opts.LoadedCAPool or basePool(opts.LoadedCAPool)", "origin "+describeOrigin(bad))
+		c.obI("R18.4", st, "RootCAs-origin", ok, "tls.Config.RootCAs originates only from opts.LoadedCAPool, a new empty pool, or basePool(opts.LoadedCAPool)", "origin "+describeOrigin(bad))
 	}
 	c.min("R18.4", 4)
 	for _, fn := range p.LibFuncs() {
@@ -228,6 +238,12 @@ func runC18(c *Ctx) {
 	certStores := fieldStores(f, tlsConfigT, "Certificates")
 	for _, st := range certStores {
 		elems, ok := sliceLitElems(st.Val)
+		if ap := asCall(st.Val); !ok && ap != nil && calleeName(&ap.Call) == "builtin append" && len(ap.Call.Args) == 2 {
+			// append(cfg.Certificates, pair): whatever the field held before was stored under this same rule
+			if isNilConst(ap.Call.Args[0]) || vFieldLoad(tlsConfigT, "Certificates", nil)(ap.Call.Args[0]) {
+				elems, ok = sliceLitElems(ap.Call.Args[1])
+			}
+		}
 		good := ok && len(elems) == 1
 		if good {
 			good, _ = allOrigins(elems[0], oCall(0, "crypto/tls.LoadX509KeyPair", "crypto/tls.X509KeyPair"), oNil()) // (zero value: a helper's result on its error path)
@@ -263,8 +279,25 @@ func runC18(c *Ctx) {
 	tc := p.Fn("rt/client.TLSClient")
 	checkErrorsReturned(c, "R18.5", tc, 1, nil)
 	for _, st := range fieldStoresAny(tc, "net/http.Client", "Transport") {
-		ok, bad := allOrigins(st.Val, oCall(0, "rt/client.TLSTransport"))
-		c.obI("R18.5", st, "client-transport", ok, "TLSClient installs the transport returned by TLSTransport", "origin "+describeOrigin(bad))
+		// the transport returned by TLSTransport, or a transport built here around the config TLSClientAuth returned
+		ownTransport := func(o Origin) bool {
+			al, isAl := o.V.(*ssa.Alloc)
+			if n, _ := structOf(o.V.Type()); !isAl || n == nil || typeFullName(n) != "net/http.Transport" {
+				return false
+			}
+			n := 0
+			for _, cs := range fieldStoresAny(tc, "net/http.Transport", "TLSClientConfig") {
+				if fa, isFA := cs.Addr.(*ssa.FieldAddr); isFA && fa.X == ssa.Value(al) {
+					if okc, _ := allOrigins(cs.Val, oCall(0, "rt/client.TLSClientAuth")); !okc {
+						return false
+					}
+					n++
+				}
+			}
+			return n >= 1
+		}
+		ok, bad := allOrigins(st.Val, oCall(0, "rt/client.TLSTransport"), ownTransport)
+		c.obI("R18.5", st, "client-transport", ok, "TLSClient installs the transport returned by TLSTransport (or one it builds around the config TLSClientAuth returned)", "origin "+describeOrigin(bad))
 	}
 	c.obF("R18.5", tc, "client-transport-exists", len(fieldStoresAny(tc, "net/http.Client", "Transport")) == 1, "TLSClient sets Client.Transport", "store not found")
 }
